@@ -1,5 +1,6 @@
 """C23 merge-time permission hardening never lets unsafe modes through (E1: every mode x kind x owner)."""
 
+import io
 import os
 import shutil
 import sys
@@ -14,10 +15,15 @@ TECHNIQUE = (
 )
 RULE = (
     "every mode 0..07777 x kind {file, dir, fifo, symlink, char device} x uid {root, build user, build group's number, other} "
-    "x gid likewise x observer {engine default, null observer, recording observer}; 64 entries of one kind (plus one mixed-kind "
+    "x gid likewise x observer {engine default, repo_observer(null_output()), repo_observer(file_handle_output(StringIO))}; 64 entries of one kind (plus one mixed-kind "
     "batch per task) form the contents of one package whose install engine's pre_merge hook is run with the default triggers "
     "under a scratch offset; "
-    "engine.csets['new_cset'] is then judged per entry. A class is (kind, which of the mode/uid/gid fixes the stage was observed to apply)."
+    "engine.csets['new_cset'] is then judged per entry. A second sweep gives every entry a file name with characters special "
+    "to %-interpolation, str.format and escapes ('%', 'a%sb', '100%.dat', 'a%20b', 'x%%y', '%(k)s', '%d', '{', '}', '{0}', "
+    "backslashes, a space; one name per package and all names mixed in one package) under offsets 'root' and 'ro%ot{}' with 256 "
+    "representative modes x 5 kinds, through observers {engine default, null, repo_observer(file_handle_output), "
+    "repo_observer(formatter_output(PlainTextFormatter))} - the real interpolating outputs pmerge wires, real trigger dispatch "
+    "with exception suppression. A class is (kind, which of the mode/uid/gid fixes the stage was observed to apply)."
 )
 P_UID, P_GID, OTHER = 250, 251, 1234
 ASSUMPTIONS = [
@@ -28,14 +34,22 @@ ASSUMPTIONS = [
     "the engine runs with offset = a tmpfs scratch directory (the default ldconfig trigger stats/creates etc/ld.so.conf under the offset); expected location = offset + original location",
 ]
 BOUNDS = {
-    "quick": "full product: 4096 modes x 5 kinds x 4 uids x 4 gids x 3 observers = 983 040 entries (+ mixed-kind packages), 64-70 entries per engine run, 15 744 engine runs",
+    "quick": "full product: 4096 modes x 5 kinds x 4 uids x 4 gids x 3 observers = 983 040 entries (+ mixed-kind packages), 64-70 entries per engine run, 15 744 engine runs; plus the path-name sweep: 13 names (+ mixed) x 2 offsets x 4 observers x 256 modes x 5 kinds = 143 360 entries in 2 240 engine runs",
     "thorough": "same full product (the space is finite and fully covered in quick)",
 }
 
 KINDS = ["file", "dir", "fifo", "sym", "dev"]
 UIDS = [0, P_UID, P_GID, OTHER]
 GIDS = [0, P_GID, P_UID, OTHER]
-OBSERVERS = ["none", "null", "rec"]
+OBSERVERS = ["none", "null", "fho"]
+# observers for the path-name sweep: engine default, and the two real interpolating outputs wrapped the way pmerge wires
+# them (repo_observer(formatter_output(formatter)) / repo_observer(file_handle_output(stream)))
+NAME_OBSERVERS = ["none", "null", "fho", "fmt"]
+# path-name representatives: characters special to %-interpolation, str.format and escapes
+NAMES = ["%", "a%sb", "100%.dat", "a%20b", "x%%y", "%(k)s", "%d", "{", "}", "{0}", "a\\b", "\\n", "pl ain"]
+OFFSET_NAMES = ["root", "ro%ot{}"]
+# modes for the path-name sweep: every set-id/sticky combination x every 'other' triple x owner {0,7} x group {0,5}
+NAME_MODES = [sp << 9 | u << 6 | g << 3 | o for sp in range(8) for u in (0, 7) for g in (0, 5) for o in range(8)]
 BATCH = 64
 S_IFCHR = 0o020000
 
@@ -85,9 +99,12 @@ def _env():
 
 
 class Scratch:
+    def __init__(self, offset_name="root"):
+        self.offset_name = offset_name
+
     def __enter__(self):
         self.base = tempfile.mkdtemp(dir="/dev/shm", prefix=f"verif-{PROPERTY}-{os.getpid()}-")
-        self.offset = os.path.join(self.base, "root")
+        self.offset = os.path.join(self.base, self.offset_name)
         self.tmp = os.path.join(self.base, "tmp")
         os.makedirs(self.offset)
         os.makedirs(self.tmp)
@@ -97,15 +114,16 @@ class Scratch:
         shutil.rmtree(self.base, ignore_errors=True)
 
 
-def loc_of(i, kind):
-    return f"/usr/share/c23/{kind}{i}"
+def loc_of(i, spec):
+    """spec = [kind, mode, uid, gid] or [kind, mode, uid, gid, name]: the optional name becomes part of the file name"""
+    return f"/usr/share/c23/{spec[0]}{i}" + (f"-{spec[4]}" if len(spec) > 4 else "")
 
 
 def mk_entry(env, i, spec):
     """spec = [kind, mode, uid, gid] -> (real entry, data object or None)"""
     fs = env["fs"]
-    kind, mode, uid, gid = spec
-    loc = loc_of(i, kind)
+    kind, mode, uid, gid = spec[:4]
+    loc = loc_of(i, spec)
     common = dict(mode=mode, uid=uid, gid=gid, mtime=1000 + i)
     if kind == "file":
         ds = env["data_source"](b"payload %d" % i)
@@ -125,12 +143,12 @@ KIND_ATTR = {"file": "is_reg", "dir": "is_dir", "fifo": "is_fifo", "sym": "is_sy
 
 def judge(spec, i, orig, data, res, offset):
     """the property, per entry: spec is what went in, res what pre_merge left in new_cset (or None)"""
-    kind, mode, uid, gid = spec
-    want_loc = offset.rstrip("/") + loc_of(i, kind)
+    kind, mode, uid, gid = spec[:4]
+    want_loc = offset.rstrip("/") + loc_of(i, spec)
     if res is None:
-        return [f"{kind} {loc_of(i, kind)} mode {mode:04o} uid {uid} gid {gid}: no entry at {want_loc} after pre_merge"]
+        return [f"{kind} {loc_of(i, spec)} mode {mode:04o} uid {uid} gid {gid}: no entry at {want_loc} after pre_merge"]
     msgs = []
-    head = f"{kind} mode {mode:04o} uid {uid} gid {gid}"
+    head = f"{kind} mode {mode:04o} uid {uid} gid {gid}" + (f" name {spec[4]!r}" if len(spec) > 4 else "")
     if type(res) is not type(orig) or not getattr(res, KIND_ATTR[kind], False):
         msgs.append(f"{head}: type changed to {type(res).__name__}")
         return msgs
@@ -170,15 +188,13 @@ def mk_observer(env, obs):
         return None
     if obs == "null":
         return o.repo_observer(o.null_output())
+    if obs == "fho":
+        return o.repo_observer(o.file_handle_output(io.StringIO()))
+    if obs == "fmt":
+        from snakeoil.formatters import PlainTextFormatter
 
-    class rec(o.null_output):
-        def __init__(self):
-            self.warned = []
-
-        def warn(self, msg, *a, **kw):
-            self.warned.append(msg)
-
-    return o.repo_observer(rec())
+        return o.repo_observer(o.formatter_output(PlainTextFormatter(io.BytesIO())))
+    raise ValueError(obs)
 
 
 def eval_batch(obs, specs, scratch):
@@ -201,7 +217,7 @@ def eval_batch(obs, specs, scratch):
     if len(got) != len(specs):
         out.append((None, f"new_cset holds {len(got)} entries for {len(specs)} package entries"))
     for i, (s, (orig, data)) in enumerate(zip(specs, built)):
-        res = got.get(scratch.offset.rstrip("/") + loc_of(i, s[0]))
+        res = got.get(scratch.offset.rstrip("/") + loc_of(i, s))
         tags.append(outcome(s, orig, res))
         for m in judge(s, i, orig, data, res, scratch.offset):
             out.append((i, m))
@@ -209,7 +225,20 @@ def eval_batch(obs, specs, scratch):
 
 
 def tasks(tier):
-    return [(obs, uid, gid, o) for obs in OBSERVERS for uid in UIDS for gid in GIDS for o in range(8)]
+    out = [(obs, uid, gid, o) for obs in OBSERVERS for uid in UIDS for gid in GIDS for o in range(8)]
+    out += [("names", obs, off, name) for obs in NAME_OBSERVERS for off in OFFSET_NAMES for name in NAMES + ["*mixed*"]]
+    return out
+
+
+def name_batches(name):
+    """NAME_MODES x kinds, owned by the build user and group, every entry's file name carrying `name`; '*mixed*' puts all
+    names into every package (so one entry's name can affect what happens to the others)"""
+    if name == "*mixed*":
+        specs = [[k, m, P_UID, P_GID, NAMES[(j + ki) % len(NAMES)]] for j, m in enumerate(NAME_MODES) for ki, k in enumerate(KINDS)]
+    else:
+        specs = [[k, m, P_UID, P_GID, name] for k in KINDS for m in NAME_MODES]
+    for i in range(0, len(specs), BATCH):
+        yield specs[i : i + BATCH]
 
 
 def batches(uid, gid, o):
@@ -222,7 +251,13 @@ def batches(uid, gid, o):
 
 
 def work(task):
-    obs, uid, gid, o = task
+    if task[0] == "names":
+        _, obs, offname, name = task
+        todo = name_batches(name)
+    else:
+        obs, uid, gid, o = task
+        offname = "root"
+        todo = batches(uid, gid, o)
     evals = 0
     classes = {}
     viol = []
@@ -238,8 +273,14 @@ def work(task):
     def note(c, n=1):
         classes[c] = classes.get(c, 0) + n
 
-    with Scratch() as sc:
-        for specs in batches(uid, gid, o):
+    def case_of(entries, msg):
+        c = {"obs": obs, "entries": entries, "msg": msg}
+        if offname != "root":
+            c["offset"] = offname
+        return c
+
+    with Scratch(offname) as sc:
+        for specs in todo:
             evals += len(specs)
             bad, tags = eval_batch(obs, specs, sc)
             if any(i is None for i, _ in bad):
@@ -249,10 +290,10 @@ def work(task):
                 for sp in specs:
                     one = eval_batch(obs, [sp], sc)[0]
                     if one:
-                        add({"obs": obs, "entries": [sp], "msg": one[0][1]})
+                        add(case_of([sp], one[0][1]))
                         break
                 else:
-                    add({"obs": obs, "entries": specs, "msg": bad[0][1]})
+                    add(case_of(specs, bad[0][1]))
                 continue
             for t in tags:
                 note(t)
@@ -261,16 +302,19 @@ def work(task):
                 for i in sorted({i for i, _ in bad})[:3]:
                     one = eval_batch(obs, [specs[i]], sc)[0]
                     if one:
-                        add({"obs": obs, "entries": [specs[i]], "msg": one[0][1]})
+                        add(case_of([specs[i]], one[0][1]))
                         shrunk = True
                 if not shrunk:
-                    add({"obs": obs, "entries": specs, "msg": bad[0][1]})
-    samples = [{"obs": obs, "entries": [[k, 0o6770 + o, uid, gid] for k in KINDS[:2]]}]
+                    add(case_of(specs, bad[0][1]))
+    if task[0] == "names":
+        samples = [case_of([["file", 0o6777, P_UID, P_GID, NAMES[0] if name == "*mixed*" else name]], "")]
+    else:
+        samples = [{"obs": obs, "entries": [[k, 0o6770 + o, uid, gid] for k in KINDS[:2]]}]
     return {"evals": evals, "classes": classes, "viol": viol + known, "samples": samples}
 
 
 def replay(case):
-    with Scratch() as sc:
+    with Scratch(case.get("offset", "root")) as sc:
         return [m for _i, m in eval_batch(case["obs"], [list(s) for s in case["entries"]], sc)[0]]
 
 
